@@ -47,7 +47,16 @@ func genLimbs(r *Rng) ([10]uint32, string) {
 		return max26
 	}
 	kind := ""
-	switch r.Intn(9) {
+	switch r.Intn(11) {
+	case 9, 10: // magnitude <= 8: the premise of Mul / Sqr (limbs up to 8 * max, often exactly)
+		m := uint32(1 + r.Intn(8))
+		kind = "magnitude<=8"
+		for i := range n {
+			n[i] = m * (uint32(r.U64()) & lim(i))
+			if r.Chance(50) {
+				n[i] = m * lim(i)
+			}
+		}
 	case 0: // normalised, random
 		kind = "reduced"
 		for i := range n {
@@ -130,7 +139,7 @@ func runFieldLimbs(r *Rng, cnt int, o *Out, hist Hist, caseJSON map[string][]map
 	if unsafe.Sizeof(secp.Field{}) != 40 {
 		panic("secp256k1go.Field is not [10]uint32")
 	}
-	var norm, add, mul, neg, preds, setint, setb, getb []string
+	var norm, add, mul, neg, preds, setint, setb, getb, fmul, sqr []string
 	rec := func(g string, m map[string]interface{}) { caseJSON[g] = append(caseJSON[g], m) }
 	for i := 0; i < cnt; i++ {
 		a, ka := genLimbs(r)
@@ -228,6 +237,21 @@ func runFieldLimbs(r *Rng, cnt int, o *Out, hist Hist, caseJSON map[string][]map
 			getb = append(getb, Tuple(zlist(a[:]), blist(buf)))
 			rec("fl_getb32", map[string]interface{}{"fn": "GetB32", "kind": ka, "limbs": zlist(a[:]), "observed": fmt.Sprintf("%x", buf)})
 		}
+		{
+			// Field.Mul / Field.Sqr: uint64 accumulators; inputs of every magnitude, incl. beyond the bound of 8
+			var f, g, out secp.Field
+			*limbsOf(&f), *limbsOf(&g) = a, b
+			*limbsOf(&out) = b // every limb of the result must be overwritten
+			f.Mul(&out, &g)
+			ol := *limbsOf(&out)
+			fmul = append(fmul, Tuple(zlist(a[:]), zlist(b[:]), zlist(ol[:])))
+			rec("fl_fmul", map[string]interface{}{"fn": "Mul", "kind": ka + "*" + kb, "limbs": zlist(a[:]), "limbs2": zlist(b[:]), "observed": zlist(ol[:])})
+			*limbsOf(&out) = b
+			f.Sqr(&out)
+			ol = *limbsOf(&out)
+			sqr = append(sqr, Tuple(zlist(a[:]), zlist(ol[:])))
+			rec("fl_sqr", map[string]interface{}{"fn": "Sqr", "kind": ka, "limbs": zlist(a[:]), "observed": zlist(ol[:])})
+		}
 		o.Count(fmt.Sprint("fieldlimbs", a, b), true)
 	}
 	var sb strings.Builder
@@ -242,5 +266,7 @@ func runFieldLimbs(r *Rng, cnt int, o *Out, hist Hist, caseJSON map[string][]map
 	def("cases_fl_setint", "Z * list Z", setint)
 	def("cases_fl_setb32", "list Z * list Z", setb)
 	def("cases_fl_getb32", "list Z * list Z", getb)
+	def("cases_fl_fmul", "list Z * list Z * list Z", fmul)
+	def("cases_fl_sqr", "list Z * list Z", sqr)
 	return sb.String()
 }
